@@ -235,15 +235,17 @@ theorem replay_states_mutex_etcd (p : Etcd.Params) (cs : List Etcd.Cmd) (s : Etc
     (li : s.leaseAlive i = true) (lj : s.leaseAlive j = true) : i = j :=
   mutex_etcd_live p s (replay_reachable_etcd p cs s hs) i j hi hj li lj
 
-/-- **The specification the oracle evaluates on the implementation's results holds of the model's
-    own results** (mutual-exclusion clause, Redis): replaying any schedule in the model and feeding
-    the model's results to `Spec.specStep` never yields `C18:two-holders-within-lease`, whatever the
-    timing flags. -/
-theorem replay_satisfies_mutex_spec_redis (p : Redis.Params) (hp : 0 < p.wait) (cs : List Redis.Cmd)
-    (fs : List Spec.Flag) :
-    Spec.tagTwoHolders ∉ (Spec.specReplayRedis p {} Redis.init cs fs).viol := by
-  apply Spec.jr_replay hp cs {} Redis.init fs _ .init
-  exact ⟨rfl, fun h hh => (by cases hh), (by intro h; cases h)⟩
+/-- **replay_meets_spec_redis.**  The full decidable specification of `Eru/Lock/Spec.lean` — the one
+    the oracle evaluates on the implementation's results — holds of the Redis model's own replay of
+    EVERY command list: feeding the model's results (no timing flags: the model has no stopwatch) to
+    `Spec.specStep` never yields `two-holders-within-lease`, `refused-when-free`, `blocked-when-free`
+    or any other C18 tag.  The only tag that can appear at all is the C19 finding D15 on `observe`
+    (see C19.replay_meets_loss_spec_redis). -/
+theorem replay_meets_spec_redis (p : Redis.Params) (hp : 0 < p.wait) (cs : List Redis.Cmd) :
+    ∀ t ∈ (Spec.specReplayRedis p {} Redis.init cs).viol, t = Spec.tagD15 := by
+  apply Spec.jr_replay hp cs {} Redis.init _ .init
+  exact ⟨rfl, fun h hh => (by cases hh), fun t e h => (by simp [Redis.alive, Redis.init] at h),
+    fun c hc => (by cases hc), fun t h => (by cases h)⟩
 
 /-- **waiter_progress (Redis).**  A client inside `Obtain` is never stuck: its attempt is enabled, or
     it is past its deadline and `giveup` is enabled (for `TryLock` as well), or time can pass towards
